@@ -85,21 +85,29 @@ def _sub_text(text, subs, log, site):
     return text
 
 
-def apply_edits(src, start, end, edits, subs, log, site):
-    """src: bytes; edits: list of (s, e, replacement_str) within [start,end)."""
+def apply_edits(src, start, end, edits, subs, log, site, body_subs=None, body_start=None):
+    """src: bytes; edits: list of (s, e, replacement_str) within [start,end).
+    body_subs: substitutions applied only to original text at or after byte offset body_start."""
     edits = sorted(edits, key=lambda x: (x[0], x[1]))
     out = []
     pos = start
+
+    def seg(a, b):
+        t = src[a:b].decode()
+        if body_subs and body_start is not None and a >= body_start:
+            return _sub_text(t, list(subs) + list(body_subs), log, site)
+        return _sub_text(t, subs, log, site)
+
     for s, e, rep in edits:
         if s < pos:
             if s == e and s >= pos - 0:  # zero-width insertion at same point: keep order
                 pass
             else:
                 raise Undecided("overlapping edits at %s (%d<%d)" % (site, s, pos))
-        out.append(_sub_text(src[pos:s].decode(), subs, log, site))
+        out.append(seg(pos, s))
         out.append(rep)
         pos = max(pos, e)
-    out.append(_sub_text(src[pos:end].decode(), subs, log, site))
+    out.append(seg(pos, end))
     return "".join(out)
 
 
@@ -142,6 +150,7 @@ class FnSpec:
         self.view = False
         self.noret = False
         self.breakvals = []
+        self.mutself = False
         self.nested = {}
 
 
@@ -300,6 +309,8 @@ class Generator:
                             label, when = [x.strip() for x in arg.split(":", 1)]
                             case = {"label": label, "when": when, "ensures": [], "requires": []}
                             spec.cases.append(case)
+                        elif cmd == "mutself":
+                            spec.mutself = True
                         elif cmd == "breakval":
                             w2 = arg.split(None, 1)
                             spec.breakvals.append((int(w2[0]), w2[1].strip() if len(w2) > 1 else None))
@@ -468,6 +479,15 @@ class Generator:
             old = src[r[0]["span"][0]:r[0]["span"][1]].decode()
             common.append((r[0]["span"][0], r[0]["span"][1], spec.recv))
             self.log.append({"rule": "R-PIN" if "Pin" in old else "R-LOCK", "site": site, "what": "receiver `%s` => `%s`" % (old, spec.recv)})
+        body_subs = None
+        if spec.mutself:
+            r = [x for x in sig["inputs"] if x["receiver"]]
+            if len(r) != 1 or src[r[0]["span"][0]:r[0]["span"][1]].decode().replace(" ", "") != "mutself":
+                raise Undecided("mutself: receiver is not `mut self`")
+            common.append((r[0]["span"][0], r[0]["span"][1], "self"))
+            common.append((it["body"][0] + 1, it["body"][0] + 1, " let mut this = self;"))
+            body_subs = [("R-MUTSELF", "self", "this")]
+            self.log.append({"rule": "R-MUTSELF", "site": site, "what": "`mut self` => `self` + `let mut this = self;`, body uses `this`"})
         if sig["ret"] is not None and not spec.noret:
             rt = src[sig["ret"][0]:sig["ret"][1]].decode()
             common.append((sig["ret"][0], sig["ret"][0], "(%s: " % spec.ret))
@@ -544,7 +564,7 @@ class Generator:
                 eds.append((body_s, body_e, spec_text + "{ unimplemented!() }"))
             else:
                 eds.append((body_s, body_s, spec_text))
-            text = apply_edits(src, s, e, eds, spec.subs, self.log if not emitted_any else [], site)
+            text = apply_edits(src, s, e, eds, spec.subs, self.log if not emitted_any else [], site, body_subs=body_subs, body_start=it["body"][0] + 1)
             if it["vis"] is None and not spec.novis:
                 text = "pub " + text.lstrip()
             oid = "%s/%s%s" % (self.unit, spec.label or base, ("#" + suffix[2:]) if suffix else "")
